@@ -61,6 +61,8 @@ def main():
             return ("C17",)
         if name.endswith("BeltStore_gate"):
             return ("C12", "C13")
+        if name.endswith("_push_item_shape"):
+            return ("C03", "C16")
         if name.endswith("_delegates"):
             return ("C14",) if name.startswith("Fleet") else ("C11",)
         if name == "ContBelt_is_stalled":
@@ -90,7 +92,7 @@ def main():
     for target, props in (("theories/Edges/TieB.vo", ("C01", "C02", "C04", "C09", "C11", "C15")),
                           ("theories/Nodes/TieAcc.vo", ("C15", "C17")),
                           ("theories/Edges/TieBelt.vo", ("C12", "C13")),
-                          ("theories/Nodes/TieNodes.vo", ("C08", "C10", "C11", "C14", "C15", "C16")),
+                          ("theories/Nodes/TieNodes.vo", ("C03", "C08", "C10", "C11", "C14", "C15", "C16")),
                           ("theories/Factory/TieStats.vo", ("C14", "C17", "C18")),
                           ("theories/Factory/TieCommit.vo", ("C09", "C10", "C15"))):
         if pid in props:
